@@ -335,7 +335,7 @@ pub fn run(tier: Tier, seed: u64) -> i32 {
         "buffers are allocated at the maximum encoded size (on chain: 10 KiB realloc padding behind every account)".into(),
         "bytes beyond the used length are not constrained".into(),
     ];
-    let rand_ops: u64 = tier.pick(400_000, 40_000_000);
+    let rand_ops: u64 = tier.pick(1_600_000, 40_000_000);
     let combos: Vec<(u16, i32)> = {
         let mut v = vec![];
         for sp in [1u16, 64, 32896] {
